@@ -3,11 +3,11 @@
 package main
 
 import (
-	"runtime/debug"
 	"flag"
 	"fmt"
 	"os"
 	"path/filepath"
+	"runtime/debug"
 	"strconv"
 	"strings"
 
